@@ -13,7 +13,7 @@ ENTRY = dict(
                 "the activation's start-up steps (monitor subscribed before the inner start — Props/C12Current) the whole "
                 "C02 statement holds for it; were the order reversed, the kernel-checked missed-start schedule applies and "
                 "the parent waits for ever. Data objects are written and read across the sub-process boundary (D34 found so)."),
-    level_note=("STEP CONTRACT of the sub-process node, for every program, state and configuration (Props/C12Steps): a token reaching an idle sub-process node creates exactly one fresh token per inner start event, in document order (enter_sub_tokens), is held without requesting anything (enter_sub_holds_parent), a second concurrent activation is flagged, never merged; a parent token is released only when its scope holds no live token (settle_holds_parent, return_needs_empty_scope) and leaves the active list in the same step, so once per activation (return_sub_once). RUN LEVEL: for every program without inclusive gateways — sub-processes nested to any depth, inside parallel branches, re-entered in loops — the engine model at the configuration extracted from today's /repo IS the token game (sub_programs_are_token_game, from Props/C01Fragment). ANY DEPTH (Props/C12Nest): descend / ascend / nest_run by induction on the nesting depth for every program of the nest shape (d >= 1 sub-process levels around one task, one task behind), inhabited at every depth (nestProc d), nest_as_inline (wrapped = inlined against the chain theorem), nest_run_current at the extracted configuration; SCOPE-BLINDNESS (Props/C12Blind): arrive at any node that is not a sub-process node, selectFlows and the reply to an answer are invariant under rewriting every scope (arrive_reparent, answerPrep_reparent) — inner activities are handled as they would be inline. Still partial (C12_partial): no unbounded wrapped = inlined theorem over block contexts. Modelled: the inner tracer / relay / completion "
+    level_note=("STEP CONTRACT of the sub-process node, for every program, state and configuration (Props/C12Steps): a token reaching an idle sub-process node creates exactly one fresh token per inner start event, in document order (enter_sub_tokens), is held without requesting anything (enter_sub_holds_parent), a second concurrent activation is flagged, never merged; a parent token is released only when its scope holds no live token (settle_holds_parent, return_needs_empty_scope) and leaves the active list in the same step, so once per activation (return_sub_once). RUN LEVEL: for every program without inclusive gateways — sub-processes nested to any depth, inside parallel branches, re-entered in loops — the engine model at the configuration extracted from today's /repo IS the token game (sub_programs_are_token_game, from Props/C01Fragment). ANY DEPTH (Props/C12Nest): descend / ascend / nest_run by induction on the nesting depth for every program of the nest shape (d >= 1 sub-process levels around a chain of K >= 1 tasks, one task behind; also induction along the chain: inner_step / inner_chain), inhabited at every depth and length (nestProc d K), nest_as_inline (wrapped = inlined against the chain theorem), nest_run_current at the extracted configuration; SCOPE-BLINDNESS (Props/C12Blind): arrive at any node that is not a sub-process node, selectFlows and the reply to an answer are invariant under rewriting every scope (arrive_reparent, answerPrep_reparent) — inner activities are handled as they would be inline. Still partial (C12_partial): no unbounded wrapped = inlined theorem over block contexts. Modelled: the inner tracer / relay / completion "
                 "monitor as 'parent resumes when the inner scope is empty'; the race between the inner start-up and the relay's "
                 "subscription (schedule points subprocess.run.before_subscribe / subprocess.monitor.before_subscribe) is forced "
                 "in a third of the paired runs (the monitor / relay held for 20 ms at their subscribe points). Two "
